@@ -27,7 +27,7 @@ def run(ctx):
     for mode in (0, 1):
         exe = build(ctx, bool(mode))
         for i in range(core.NCPU):
-            jobs.append((exe, ctx.seed * 7919 + 3 + mode, i * per, per, ['nopool' if mode else 'pool']))
+            jobs.append((exe, ctx.seed * 7919 + 3 + mode, i * per, per, ['nopool' if mode else 'pool'], None, 600 if ctx.quick() else 5000))
     res = core.pmap(core.selfgen_shard, jobs)
     core.merge(ctx, res)
     for r in res[:3]:
